@@ -337,11 +337,40 @@ func genTTL(seed uint64, run int) *Case {
 	cs.Strategy = strategies[r.Intn(len(strategies))]
 	cs.SchedSeed = r.Uint64()
 	ttls := []time.Duration{interval / 2, interval, interval + interval/2, 2 * interval, 5 * interval, 100 * interval, time.Hour}
+	insertFlavour := run%3 == 2
+	if insertFlavour {
+		// insert flavour: threads insert rows with and without a time-to-live, delete and read
+		// their own rows and never update existing rows (a late write to a row the cleanup just
+		// deleted would leave stale data for the next occupant of the offset, which is C11's
+		// subject); in some runs block 0 is full so that inserts open a new block during a pass
+		cs.Cfg.Params["insert_flavour"] = 1
+		if r.Chance(0.5) {
+			pf.Blocks, pf.Survivors = 1, nil
+			pf.KeepFull = []int{0}
+			pf.Holes = []uint32{16383}
+			setup.Ops = nil
+		}
+	}
 	for ti, nw := 0, r.Range(1, 3); ti < nw; ti++ {
 		tp := ThreadProg{Role: "writer"}
 		for x, nt := 0, r.Range(1, 4); x < nt; x++ {
 			var t TxnProg
 			for o, no := 0, r.Range(1, 3); o < no; o++ {
+				if insertFlavour {
+					switch pick := r.Intn(10); {
+					case pick < 6:
+						op := Op{Kind: "insert", Writes: []Write{{Col: "a", Val: Val{U: r.Uint64()}}, {Col: "s", Val: strVal(fmt.Sprintf("i%d", r.Intn(1000)))}}}
+						if r.Chance(0.6) {
+							op.Writes = append(op.Writes, Write{TTL: int64(ttls[r.Intn(len(ttls))])})
+						}
+						t.Ops = append(t.Ops, op)
+					case pick < 8:
+						t.Ops = append(t.Ops, Op{Kind: "delete", Target: Target{Mode: "own-nottl", K: r.Intn(16)}})
+					default:
+						t.Ops = append(t.Ops, Op{Kind: "at", Target: Target{Mode: "own", K: r.Intn(16)}, Yield: r.Chance(0.3)})
+					}
+					continue
+				}
 				k := r.Intn(64)
 				op := Op{Kind: "at", Target: Target{Mode: "stable", K: k}, Yield: r.Chance(0.3)}
 				// a third of the stable rows never get a time-to-live: they must survive every pass
